@@ -128,7 +128,7 @@ PROP_TWINS = {
     'C02': ['select_all'],
     'C03': ['ef_big'],
     'C04': ['ef_dict', 'ef_big'],
-    'C08': ['vfilter'],
+    'C08': ['vfilter', 'vfunc'],
     'C05': ['bfv_misc'],
     'C10': ['bfv_chunks', 'bfv_apply'],
     'C14': ['bfv_chunks', 'bfv_apply'],
